@@ -57,6 +57,8 @@ def _phase_a(args):
     try:
         paths, stats, functions = kit.explore(spec.fn, spec.name, tier=tier, max_paths=spec.max_paths)
         seen_text = {}
+        nf_discharged = []
+        nf_seconds = 0.0
         n_trivial = 0
         exec_dis = []
         axioms = set()
@@ -70,6 +72,14 @@ def _phase_a(args):
                 name = f"{spec.name}/{o.label}@{pk}"
                 text, varmap = smt.emit(o.facts, o.goal, want_model=True)
                 alt = None
+                nf = None
+                if o.goal.op == "eq" and spec.normal_form:
+                    t_nf = time.time()
+                    nf = S.is_zero_nf(o.goal.a[0], spec.nf_limit)
+                    nf_seconds += time.time() - t_nf
+                if nf is True:
+                    nf_discharged.append(name)
+                    continue
                 if o.goal.op == "eq" and S.has_division(o.goal.a[0]):
                     # tactic: clear denominators (sound where the logged safe-div obligations hold)
                     num, _den = S.numden(o.goal.a[0])
@@ -99,6 +109,8 @@ def _phase_a(args):
         out["functions"] = kit.function_ids(functions)
         out["n_trivial"] = n_trivial
         out["exec_discharged"] = exec_dis
+        out["nf_discharged"] = nf_discharged
+        out["nf_seconds"] = nf_seconds
         out["axioms"] = sorted(axioms)
         # requires-vacuity: at least one path has satisfiable facts
         vac = []
@@ -225,6 +237,7 @@ def main(argv=None):
         traceback.print_exc()
         return 3
     npshim.install("cardillo")
+    npshim.install_sparse()
     if hasattr(mod, "setup"):
         mod.setup()
         npshim.install("cardillo")
@@ -259,24 +272,58 @@ def main(argv=None):
     # ---- phase B: solve
     spec_by_idx = {i: specs[i] for i in sel}
     t_solve0 = time.time()
+    import threading
+
+    QUICK_BUDGET = 6
+    race_sem = threading.Semaphore(max(2, a.jobs // 4))
 
     def solve_one(o):
         sp = spec_by_idx[o["cidx"]]
+        if any(fnmatch.fnmatch(nm, f["obligation"]) for f in known for nm in [o["name"]] + o["aliases"]):
+            # recorded finding: only confirm that it is still not provable (short budget, one solver)
+            v, out, dt = smt.run_solver(o.get("smt_cleared") or o["smt"], 10, "z3")
+            if v != "unsat" and o.get("smt_cleared"):
+                v, out, dt2 = smt.run_solver(o["smt"], 10, "z3")
+                dt += dt2
+            return {"verdict": v, "solver": "z3" if v in ("sat", "unsat") else None, "out": out, "seconds": dt, "log": [("z3/known-finding-budget", v, round(dt, 3))]}
+        is_soft = any(fnmatch.fnmatch(o["label"], g) for g in sp.soft)
+        budget = sp.soft_timeout if is_soft else sp.timeout
+        # stage 1: quick race of the primary solver on both forms
+        jobs1 = [("z3", "z3", o["smt"])]
         if o.get("smt_cleared"):
-            v, out, dt = smt.run_solver(o["smt_cleared"], min(sp.timeout, 60), "z3")
-            if v == "unsat":
-                return {"verdict": "unsat", "solver": "z3/denominators-cleared", "out": out, "seconds": dt, "log": [("z3/denominators-cleared", v, round(dt, 3))]}
-            r = smt.solve_portfolio(o["smt"], sp.timeout, sp.solvers)
-            r["log"].insert(0, ("z3/denominators-cleared", v, round(dt, 3)))
-            r["seconds"] += dt
-            return r
-        return smt.solve_portfolio(o["smt"], sp.timeout, sp.solvers)
+            jobs1.append(("z3/denominators-cleared", "z3", o["smt_cleared"]))
+        r1 = smt.race(jobs1, min(budget, QUICK_BUDGET))
+        if r1["verdict"] == "unsat" or (r1["verdict"] == "sat" and r1["solver"] == "z3"):
+            return r1
+        # stage 2: race the installed solvers on both forms
+        jobs = [("z3", "z3", o["smt"]), ("z3-new", "z3-new", o["smt"])]
+        if "cvc5" in sp.solvers:
+            jobs.append(("cvc5", "cvc5", o["smt"]))
+        if o.get("smt_cleared"):
+            jobs.append(("z3-new/denominators-cleared", "z3-new", o["smt_cleared"]))
+            jobs.append(("z3/denominators-cleared", "z3", o["smt_cleared"]))
+        with race_sem:
+            r = smt.race(jobs, budget)
+        if r["verdict"] == "sat" and r["solver"] and "cleared" in r["solver"]:
+            # a counter-model of the cleared form may sit on a zero denominator: decide on the original form
+            r2 = smt.race([j_ for j_ in jobs if "cleared" not in j_[0]], budget)
+            r2["log"] = r["log"] + r2["log"]
+            r2["seconds"] += r["seconds"]
+            r = r2
+        r["log"] = r1["log"] + r["log"]
+        r["seconds"] += r1["seconds"]
+        return r
 
     from concurrent.futures import ThreadPoolExecutor
 
     with ThreadPoolExecutor(max_workers=a.jobs) as ex:
         solved = list(ex.map(solve_one, obligations))
     solve_wall = time.time() - t_solve0
+
+    slowest = sorted(zip(obligations, solved), key=lambda os_: -os_[1]["seconds"])[:8]
+    if a.verbose:
+        for o, s_ in slowest:
+            print(f"  [B] {s_['seconds']:7.1f}s {s_['verdict']:8s} {o['name']}  {s_['log']}", flush=True)
 
     # ---- static obligations (other back ends)
     static_results = []
@@ -323,6 +370,7 @@ def main(argv=None):
         return path
 
     n_obl = 0
+    soft_fallback = []
     late_payloads = []
     group_first = {}  # (contract, base label, path) -> index into violations: one VIOLATION line per failing clause
     for o, s in zip(obligations, solved):
@@ -415,12 +463,16 @@ def main(argv=None):
             if kf:
                 known_hits.append((kf, o["name"]))
                 continue
-            n_obl += len(names)
             if w:
+                n_obl += len(names)
                 payload["native_witness"] = w
                 path = write_replay(o["name"], payload)
                 violations.append((o["name"], path, ""))
+            elif any(fnmatch.fnmatch(o["label"], g) for g in spec.soft) and (spec.replayable or spec.witness is not None):
+                # declared beyond the solvers' reach: the passing native search stands in (bounded, not proved)
+                soft_fallback.append(o["name"])
             else:
+                n_obl += len(names)
                 path = write_replay(o["name"], payload)
                 undecided.append((o["name"], s["verdict"], path))
 
@@ -434,6 +486,10 @@ def main(argv=None):
             n_obl += 1
             discharged += 1
             by_backend["path-execution"] = by_backend.get("path-execution", 0) + 1
+        for nm in r.get("nf_discharged", []):
+            n_obl += 1
+            discharged += 1
+            by_backend["vk-normal-form"] = by_backend.get("vk-normal-form", 0) + 1
 
     for r in static_results:
         kf = is_known(r["name"])
@@ -519,6 +575,7 @@ def main(argv=None):
         "discharged_by_backend": by_backend,
         "trivial_by_normal_form": sum(r.get("n_trivial", 0) for r in results_a),
         "solver_seconds_total": round(solver_seconds, 2),
+        "normal_form_seconds": round(sum(r.get("nf_seconds", 0.0) for r in results_a), 2),
         "solve_wall_s": round(solve_wall, 2),
         "functions_under_contract": functions,
         "contracts": [
@@ -534,9 +591,11 @@ def main(argv=None):
             for r in results_a
         ],
         "samples": samples,
+        "slowest_obligations": [{"obligation": o["name"], "seconds": round(s_["seconds"], 2), "log": s_["log"]} for o, s_ in slowest],
         "largest_vc_bytes": max([len(o["smt"]) for o in obligations], default=0),
         "known_findings_hit": [{"pattern": p, "what": kf["what"], "obligations": nms[:6], "count": len(nms)} for p, (kf, nms) in seen_known.items()],
         "undecided": [u[0] for u in undecided],
+        "not_proved_bounded_standin": {"count": len(soft_fallback), "obligations": soft_fallback[:40], "note": "solvers gave no answer within the budget; a native random search (finite differences on real subsystems) found no failing input; NOT counted in obligations/discharged"},
         "bounded_standins": [
             {"name": r["name"], "bound": r.get("bound", ""), "cases": r.get("cases", 0), "distinct": r.get("distinct", 0), "failures": len(r.get("failures", [])), "labelled": "bounded - never counted in discharged"}
             for r in bounded_results
@@ -572,7 +631,7 @@ def main(argv=None):
 
     print(
         f"{prop} [{tier}] obligations={n_obl} discharged={discharged} by={by_backend} known={len(known_hits)} "
-        f"violations={len(violations)} undecided={len(undecided)} broken={len(broken)} wall={wall:.1f}s"
+        f"violations={len(violations)} undecided={len(undecided)} bounded-standin={len(soft_fallback)} broken={len(broken)} wall={wall:.1f}s"
     )
     if broken:
         return 3
